@@ -1,1 +1,65 @@
-; UTF-8 per The Unicode Standard, Table 3-7 (well-formed byte sequences)
+; UTF-8 as defined by The Unicode Standard (v15), chapter 3, Table 3-6 (bit
+; distribution) and Table 3-7 (well-formed byte sequences); Go decodes any
+; ill-formed sequence as U+FFFD of width 1 and encodes invalid code points
+; (surrogates, values above U+10FFFF, negatives) as U+FFFD (EF BF BD).
+; Written from the tables, not from the code under verification.
+(define-fun u8in ((b (_ BitVec 8)) (lo (_ BitVec 8)) (hi (_ BitVec 8))) Bool (and (bvule lo b) (bvule b hi)))
+(define-fun utf8_wf2 ((b0 (_ BitVec 8)) (b1 (_ BitVec 8))) Bool
+  (and (u8in b0 #xC2 #xDF) (u8in b1 #x80 #xBF)))
+(define-fun utf8_wf3 ((b0 (_ BitVec 8)) (b1 (_ BitVec 8)) (b2 (_ BitVec 8))) Bool
+  (and (or (and (= b0 #xE0) (u8in b1 #xA0 #xBF))
+           (and (u8in b0 #xE1 #xEC) (u8in b1 #x80 #xBF))
+           (and (= b0 #xED) (u8in b1 #x80 #x9F))
+           (and (u8in b0 #xEE #xEF) (u8in b1 #x80 #xBF)))
+       (u8in b2 #x80 #xBF)))
+(define-fun utf8_wf4 ((b0 (_ BitVec 8)) (b1 (_ BitVec 8)) (b2 (_ BitVec 8)) (b3 (_ BitVec 8))) Bool
+  (and (or (and (= b0 #xF0) (u8in b1 #x90 #xBF))
+           (and (u8in b0 #xF1 #xF3) (u8in b1 #x80 #xBF))
+           (and (= b0 #xF4) (u8in b1 #x80 #x8F)))
+       (u8in b2 #x80 #xBF) (u8in b3 #x80 #xBF)))
+(define-fun utf8_z ((b (_ BitVec 8))) (_ BitVec 32) ((_ zero_extend 24) b))
+(define-fun utf8_val2 ((b0 (_ BitVec 8)) (b1 (_ BitVec 8))) (_ BitVec 32)
+  (bvor (bvshl (bvand (utf8_z b0) #x0000001F) #x00000006) (bvand (utf8_z b1) #x0000003F)))
+(define-fun utf8_val3 ((b0 (_ BitVec 8)) (b1 (_ BitVec 8)) (b2 (_ BitVec 8))) (_ BitVec 32)
+  (bvor (bvshl (bvand (utf8_z b0) #x0000000F) #x0000000C) (bvshl (bvand (utf8_z b1) #x0000003F) #x00000006) (bvand (utf8_z b2) #x0000003F)))
+(define-fun utf8_val4 ((b0 (_ BitVec 8)) (b1 (_ BitVec 8)) (b2 (_ BitVec 8)) (b3 (_ BitVec 8))) (_ BitVec 32)
+  (bvor (bvshl (bvand (utf8_z b0) #x00000007) #x00000012) (bvshl (bvand (utf8_z b1) #x0000003F) #x0000000C)
+        (bvshl (bvand (utf8_z b2) #x0000003F) #x00000006) (bvand (utf8_z b3) #x0000003F)))
+;; sig utf8_dec_rune(u8,u8,u8,u8,i64) i32
+(define-fun utf8_dec_rune ((b0 (_ BitVec 8)) (b1 (_ BitVec 8)) (b2 (_ BitVec 8)) (b3 (_ BitVec 8)) (avail (_ BitVec 64))) (_ BitVec 32)
+  (ite (bvult b0 #x80) (utf8_z b0)
+  (ite (and (bvsge avail (_ bv2 64)) (utf8_wf2 b0 b1)) (utf8_val2 b0 b1)
+  (ite (and (bvsge avail (_ bv3 64)) (utf8_wf3 b0 b1 b2)) (utf8_val3 b0 b1 b2)
+  (ite (and (bvsge avail (_ bv4 64)) (utf8_wf4 b0 b1 b2 b3)) (utf8_val4 b0 b1 b2 b3)
+  #x0000FFFD)))))
+;; sig utf8_dec_size(u8,u8,u8,u8,i64) i64
+(define-fun utf8_dec_size ((b0 (_ BitVec 8)) (b1 (_ BitVec 8)) (b2 (_ BitVec 8)) (b3 (_ BitVec 8)) (avail (_ BitVec 64))) (_ BitVec 64)
+  (ite (bvult b0 #x80) (_ bv1 64)
+  (ite (and (bvsge avail (_ bv2 64)) (utf8_wf2 b0 b1)) (_ bv2 64)
+  (ite (and (bvsge avail (_ bv3 64)) (utf8_wf3 b0 b1 b2)) (_ bv3 64)
+  (ite (and (bvsge avail (_ bv4 64)) (utf8_wf4 b0 b1 b2 b3)) (_ bv4 64)
+  (_ bv1 64))))))
+;; sig utf8_scalar(i32) bool
+(define-fun utf8_scalar ((r (_ BitVec 32))) Bool
+  (and (bvsle #x00000000 r) (bvsle r #x0010FFFF) (not (and (bvsle #x0000D800 r) (bvsle r #x0000DFFF)))))
+; what gets encoded: the code point itself, or U+FFFD for a non-scalar value
+(define-fun utf8_eff ((r (_ BitVec 32))) (_ BitVec 32) (ite (utf8_scalar r) r #x0000FFFD))
+;; sig utf8_enc_len(i32) i64
+(define-fun utf8_enc_len ((r (_ BitVec 32))) (_ BitVec 64)
+  (let ((c (utf8_eff r)))
+  (ite (bvule c #x0000007F) (_ bv1 64) (ite (bvule c #x000007FF) (_ bv2 64) (ite (bvule c #x0000FFFF) (_ bv3 64) (_ bv4 64))))))
+(define-fun utf8_lo8 ((x (_ BitVec 32))) (_ BitVec 8) ((_ extract 7 0) x))
+(define-fun utf8_cont ((c (_ BitVec 32)) (sh (_ BitVec 32))) (_ BitVec 8)
+  (bvor #x80 (bvand (utf8_lo8 (bvlshr c sh)) #x3F)))
+;; sig utf8_enc_byte(i32,i64) u8
+(define-fun utf8_enc_byte ((r (_ BitVec 32)) (j (_ BitVec 64))) (_ BitVec 8)
+  (let ((c (utf8_eff r)))
+  (ite (bvule c #x0000007F) (utf8_lo8 c)
+  (ite (bvule c #x000007FF)
+       (ite (= j (_ bv0 64)) (bvor #xC0 (utf8_lo8 (bvlshr c #x00000006))) (utf8_cont c #x00000000))
+  (ite (bvule c #x0000FFFF)
+       (ite (= j (_ bv0 64)) (bvor #xE0 (utf8_lo8 (bvlshr c #x0000000C)))
+       (ite (= j (_ bv1 64)) (utf8_cont c #x00000006) (utf8_cont c #x00000000)))
+       (ite (= j (_ bv0 64)) (bvor #xF0 (utf8_lo8 (bvlshr c #x00000012)))
+       (ite (= j (_ bv1 64)) (utf8_cont c #x0000000C)
+       (ite (= j (_ bv2 64)) (utf8_cont c #x00000006) (utf8_cont c #x00000000)))))))))
